@@ -21,8 +21,10 @@ def n2(s):
 
 
 def expected_decodes(s):
-    """The values the statement allows after encode+decode of s."""
-    return {n1(n2(s)), n2(n1(s)), n1(n2(n1(s))), n2(n1(n2(s)))}
+    """The values the statement allows after encode+decode of s: both documented normalisations applied, each as
+    one substitution pass, in either order (the statement does not fix the order; e.g. CR CR LF -> CR LF, and
+    CR backslash-N -> LF or CR LF)."""
+    return {n1(n2(s)), n2(n1(s))}
 
 
 def spec_escape(s):
